@@ -191,16 +191,46 @@ where
 /// cases one worker thread executes before it is replaced by a fresh one
 pub const LIFE: u64 = 400;
 
+static PHASE: AtomicU64 = AtomicU64::new(0);
+static REPLAY_ONLY: std::sync::OnceLock<(u64, u64)> = std::sync::OnceLock::new();
+
+thread_local! {
+    static CURRENT_CASE: std::cell::Cell<(u64, u64)> = const { std::cell::Cell::new((u64::MAX, 0)) };
+}
+
+/// generic replay: run only case `index` of the `phase`-th parallel loop of this check
+pub fn set_replay_only(phase: u64, index: u64) {
+    let _ = REPLAY_ONLY.set((phase, index));
+}
+
+pub fn replay_only() -> Option<(u64, u64)> {
+    REPLAY_ONLY.get().copied()
+}
+
+/// (phase, index) of the case the calling worker thread is executing (phase = how many parallel
+/// loops this check had started before; u64::MAX outside of a loop)
+pub fn current_case() -> (u64, u64) {
+    CURRENT_CASE.with(|c| c.get())
+}
+
 /// `par_for` with an explicit number of slots (real-time scenarios mostly sleep)
 pub fn par_for_n<F>(n: usize, total: u64, deadline: Option<Instant>, f: F) -> u64
 where
     F: Fn(u64) -> After + Sync,
 {
-    let next = AtomicU64::new(0);
+    let phase = PHASE.fetch_add(1, Ordering::SeqCst);
+    let only = replay_only();
+    if let Some((p, _)) = only {
+        if p != phase {
+            return 0;
+        }
+    }
+    let next = AtomicU64::new(only.map_or(0, |o| o.1));
+    let total = only.map_or(total, |o| (o.1 + 1).min(total));
     let done = AtomicU64::new(0);
     // sanitizer stages (Miri, ASan) run the same checks on every k-th case only
-    let (stride, shard) = stride();
-    let n = if stride > 1 { n.min(workers()) } else { n };
+    let (stride, shard) = if only.is_some() { (1, 0) } else { stride() };
+    let n = if only.is_some() { 1 } else if stride > 1 { n.min(workers()) } else { n };
     std::thread::scope(|s| {
         for _ in 0..n {
             s.spawn(|| {
@@ -224,7 +254,9 @@ where
                                     if stride > 1 && splitmix(&mut i.clone()) % stride != shard {
                                         continue;
                                     }
+                                    CURRENT_CASE.with(|c| c.set((phase, i)));
                                     let r = f(i);
+                                    CURRENT_CASE.with(|c| c.set((u64::MAX, 0)));
                                     done.fetch_add(1, Ordering::Relaxed);
                                     life += 1;
                                     // the async runtime keeps per-thread state that grows with
